@@ -80,6 +80,8 @@ pub enum Family {
     Dyadic,
     PositiveWide,
     PositiveNarrow,
+    /// the same exactly representable value n times (only used where a constant sample is wanted)
+    Constant,
 }
 
 pub const REAL_FAMILIES: [Family; 10] = [
@@ -112,6 +114,7 @@ impl Family {
             Family::Dyadic => "dyadic",
             Family::PositiveWide => "positive-wide",
             Family::PositiveNarrow => "positive-narrow",
+            Family::Constant => "constant",
         }
     }
 }
@@ -240,6 +243,10 @@ pub fn sample(spec: &Spec) -> Vec<f64> {
                 v.push((1.0 + r.f64()) * e.exp2());
             }
         }
+        Family::Constant => {
+            let k = *r.pick(&[1.0, 2.5, 0.375, 1024.0, 3.0]) * if spec.positive || r.bool() { 1.0 } else { -1.0 };
+            v.resize(n, k);
+        }
         Family::PositiveNarrow => {
             let base = *r.pick(&[1.0, 0.37, 42.0, 1e4, 3e-5]);
             let rel = *r.pick(&[0.5, 0.1, 0.01]);
@@ -261,7 +268,7 @@ pub fn sample(spec: &Spec) -> Vec<f64> {
         }
     }
     // guarantee a non-degenerate sample where the family intends one
-    if n >= 2 && v.iter().all(|x| *x == v[0]) {
+    if n >= 2 && spec.family != Family::Constant && v.iter().all(|x| *x == v[0]) {
         v[1] = if spec.f32 { ((v[0] as f32) * 1.5 + 1.0) as f64 } else { v[0] * 1.5 + 1.0 };
     }
     v
